@@ -31,6 +31,10 @@ def verify(pid, x):
     patch = os.path.join(out, x + ".patch.diff")
     demo = os.path.join(out, x + ".demo.c")
     if not (os.path.exists(patch) and os.path.exists(demo)):
+        # already accepted earlier: re-verify from the kept copy
+        patch = os.path.join(SEED_OUT, mid, "patch.diff")
+        demo = os.path.join(SEED_OUT, mid, "demo.c")
+    if not (os.path.exists(patch) and os.path.exists(demo)):
         return {"id": mid, "verified": False, "why": "missing files"}
     wt = wt_for(mid)
     sh(["git", "-C", wt, "checkout", "--", "."])
@@ -63,8 +67,9 @@ def verify(pid, x):
     d = os.path.join(SEED_OUT, mid)
     if res["verified"]:
         os.makedirs(d, exist_ok=True)
-        shutil.copy(patch, os.path.join(d, "patch.diff"))
-        shutil.copy(demo, os.path.join(d, "demo.c"))
+        if os.path.abspath(patch) != os.path.abspath(os.path.join(d, "patch.diff")):
+            shutil.copy(patch, os.path.join(d, "patch.diff"))
+            shutil.copy(demo, os.path.join(d, "demo.c"))
         notes = os.path.join(out, x + ".notes.md")
         if os.path.exists(notes):
             shutil.copy(notes, os.path.join(d, "notes.md"))
@@ -143,7 +148,9 @@ def main():
     elif sys.argv[1] == "detect":
         print(json.dumps(detect(sys.argv[2], sys.argv[3:] or None), indent=1))
     elif sys.argv[1] == "all":
-        jobs = [(p, x) for p in (sys.argv[2:] or ALL) for x in "ab"]
+        letters = os.environ.get("SEED_LETTERS", "abcd")
+        jobs = [(p, x) for p in (sys.argv[2:] or ALL) for x in letters
+                if os.path.exists(os.path.join(MUT, "out", p, x + ".patch.diff")) or os.path.isdir(os.path.join(SEED_OUT, "%s-%s" % (p, x)))]
         with ThreadPoolExecutor(max_workers=4) as ex:
             for m in ex.map(one, jobs):
                 v = m["verify"]
